@@ -1246,7 +1246,9 @@ class Interp:
             return getattr(obj, name)
         tp = type(obj)
         ga = _type_lookup(tp, "__getattribute__")
-        if ga is not object.__getattribute__:
+        # builtin bases (dict, list, BaseException, ...) carry their own slot wrapper for the same
+        # generic C implementation as object.__getattribute__
+        if ga is not object.__getattribute__ and type(ga) is not types.WrapperDescriptorType:
             if isinstance(ga, types.FunctionType) and interpretable(ga):
                 return self.call_function(ga, (obj, name), {})
             return getattr(obj, name)
@@ -1298,7 +1300,7 @@ class Interp:
             return
         tp = type(obj)
         sa = _type_lookup(tp, "__setattr__")
-        if sa is not object.__setattr__:
+        if sa is not object.__setattr__ and type(sa) is not types.WrapperDescriptorType:
             if isinstance(sa, types.FunctionType) and interpretable(sa):
                 self.call_function(sa, (obj, name, val), {})
                 return
